@@ -1,6 +1,7 @@
 package swap
 
 import (
+	"context"
 	"errors"
 	"fmt"
 	"math"
@@ -33,6 +34,9 @@ const (
 	exponentialBackoffBase int = 1000
 	// exponentialBackoffCap is the maximum value for the exponential backoff as milliseconds
 	exponentialBackoffCap int = 20000
+	// claimRetryPause is the pause after a round of failed claim attempts
+	// before the next round is started.
+	claimRetryPause = 5 * time.Minute
 )
 
 // StateType represents an extensible state type in the state machine.
@@ -258,6 +262,10 @@ func (s *SwapStateMachine) SendEvent(event EventType, eventCtx EventContext) (bo
 			s.exponentialBackoffAndJitter()
 			if s.retries > 20 {
 				s.retries = 0
+				// Release the caller, but do not give up for good: funds
+				// stay locked until the claim goes through. The timeout
+				// service starts another round of retries later.
+				s.swapServices.toService.addNewTimeOut(context.Background(), claimRetryPause, s.SwapId.String())
 				return false, nil
 			}
 		case Event_ActionFailed:
